@@ -444,6 +444,11 @@ bool vm_ffi_cop_start(VmState *vm, const NvmModule *module) {
         return false;
     }
 
+    /* A co-process that has gone away must surface as a failed write (EPIPE), which every
+     * caller of cop_send() already handles - not as a SIGPIPE that kills the VM.
+     * nano_vmd ignores SIGPIPE for the same reason (vmd_server.c:setup_signals). */
+    signal(SIGPIPE, SIG_IGN);
+
     pid_t pid = fork();
     if (pid < 0) {
         free(blob);
